@@ -892,7 +892,10 @@ func c14R5(c *Ctx, r *Report) {
 					if matchGuard(fc, Guard{Op: "eq", A: func(v ssa.Value) bool { return v == f.Params[2] }, B: isConstInt(typeDS), Holds: false}) {
 						notDS = true
 					}
-					if lo, _, hasLo, _ := intervalFromFact(fc, func(v ssa.Value) bool { _, isPhi := v.(*ssa.Phi); return isPhi && anyIn(sliceOf(sl0Low(lk)), isValue(v)) }); hasLo && lo >= 1 {
+					if lo, _, hasLo, _ := intervalFromFact(fc, func(v ssa.Value) bool {
+						_, isPhi := v.(*ssa.Phi)
+						return isPhi && anyIn(sliceOf(sl0Low(lk)), isValue(v))
+					}); hasLo && lo >= 1 {
 						above = true
 					}
 				}
@@ -921,7 +924,10 @@ func c14R5(c *Ctx, r *Report) {
 					continue
 				}
 				pred := phi.Block().Preds[i]
-				offPhi := func(v ssa.Value) bool { _, isPhi := v.(*ssa.Phi); return isPhi && anyIn(sliceOf(sl0Low(lk)), isValue(v)) }
+				offPhi := func(v ssa.Value) bool {
+					_, isPhi := v.(*ssa.Phi)
+					return isPhi && anyIn(sliceOf(sl0Low(lk)), isValue(v))
+				}
 				_, hi, _, hasHi := intervalAt(f, pred, offPhi)
 				if ef, ok := edgeFact(pred, phi.Block()); ok {
 					if _, h2, _, has2 := intervalFromFact(ef, offPhi); has2 && (!hasHi || h2 < hi) {
